@@ -15,6 +15,8 @@ func init() { Registry["C07"] = c07 }
 const devPkg = "pkg/scheduler/plugins/deviceshare"
 
 func c07(c *Ctx) {
+	c.R.Rule("CREATE-ONCE: in a get-or-create of a per-key record, the lookup that finds the key absent and the store of the fresh record happen in one hold of the mutex the store runs under (no release of it in between)")
+	createOnce(c, c.Fn(devPkg, "nodeDeviceCache", "getNodeDevice"), "the allocations (or the inventory) recorded in the replaced node entry are lost: a device owned by a live pod is reported free")
 	r := c.R
 	c07inventory(c)
 	c07values(c)
